@@ -16,7 +16,60 @@ pub struct ExSystemTime(SystemTime);
 #[verifier::external_body]
 pub fn verif_now() -> SystemTime { unimplemented!() }
 
+/// the decimal value of a digit string (most significant digit first); all_digits says every byte is '0'..'9'
+pub open spec fn dec_value(s: Seq<u8>) -> int
+    decreases s.len()
+{
+    if s.len() == 0 { 0 } else { dec_value(s.drop_last()) * 10 + (s.last() - 48) }
+}
+pub open spec fn all_digits(s: Seq<u8>) -> bool { forall|i: int| 0 <= i < s.len() ==> 48 <= #[trigger] s[i] <= 57 }
+/// a prefix of a digit string never has a greater value than the whole (so an overflow part-way through means the whole overflows)
+pub proof fn lemma_dec_prefix_le(s: Seq<u8>, k: int)
+    requires all_digits(s), 0 <= k <= s.len(),
+    ensures 0 <= dec_value(s.take(k)) <= dec_value(s),
+    decreases s.len() - k
+{
+    if k == 0 { assert(s.take(0).len() == 0); lemma_dec_nonneg(s); }
+    else { lemma_dec_nonneg(s.take(k)); }
+    if k < s.len() {
+        lemma_dec_prefix_le(s, k + 1);
+        assert(s.take(k + 1).drop_last() =~= s.take(k));
+        lemma_dec_nonneg(s.take(k));
+    } else { assert(s.take(k) =~= s); }
+}
+pub proof fn lemma_dec_nonneg(s: Seq<u8>)
+    requires all_digits(s),
+    ensures dec_value(s) >= 0,
+    decreases s.len()
+{
+    if s.len() > 0 { lemma_dec_nonneg(s.drop_last()); }
+}
 impl StreamId {
+//@@ unit sid_parse_u64_fast fn src/storage/stream.rs StreamId::parse_u64_fast
+//@@   rewrite RDEREF
+//@@   rewrite RFOR 0 it
+//@@   loop 0
+//@@|     invariant
+//@@|         it.seq().len() == bytes@.len(), forall|j: int| 0 <= j < bytes@.len() ==> *(#[trigger] it.seq()[j]) == bytes@[j], it.history@ =~= it.seq().take(it.index@),
+//@@|         all_digits(bytes@.take(it.index@ as int)), result as int == dec_value(bytes@.take(it.index@ as int)),
+//@@   loopstart 0
+//@@|     let ghost i0 = it.index@ as int;
+//@@|     proof {
+//@@|         assert(b == bytes@[i0]);
+//@@|         assert(bytes@.take(i0 + 1).drop_last() =~= bytes@.take(i0));
+//@@|         assert(bytes@.take(i0 + 1).last() == b);
+//@@|         if 48 <= b <= 57 && all_digits(bytes@) { lemma_dec_prefix_le(bytes@, i0 + 1); }
+//@@|         if !(48 <= b <= 57) { assert(!all_digits(bytes@)); }
+//@@|     }
+//@@   afterloop 0
+//@@|     proof { assert(bytes@.take(bytes@.len() as int) =~= bytes@); }
+    fn parse_u64_fast(bytes: &[u8]) -> (r: Option<u64>)
+        ensures
+            // C15: an ID component is read as the decimal number it spells, or refused — a non-digit, or a number that does not fit in
+            // 64 bits, is never turned into some other number
+            r == (if all_digits(bytes@) && dec_value(bytes@) <= u64::MAX { Some(dec_value(bytes@) as u64) } else { None::<u64> }),
+//@@ body
+//@@ end
 //@@ unit sid_new fn src/storage/stream.rs StreamId::new
     fn new(millis: u64, seq: u64) -> (r: Self)
         ensures r.packed == ((millis as u128) << 64) | (seq as u128),
